@@ -22,7 +22,7 @@ ASSUMPTIONS = [
 ]
 MONITORS = ("independent walk + lstat/readlink/inode of the workspace; audit-hook recorder proving zero filesystem mutations in "
             "workspace and cache during the second checkout; byte snapshot of the cache; link record checked through get_unused_links")
-REQUIRED_COUNTERS = ["stores_with_tmp_dir_on_another_filesystem", "sequences_with_a_callers_progress_callback", "workspace_path_relative_to_cwd", "renamed_files_between_versions", "state_reused_after_close", "priors_with_dangling_symlink", "priors_linked_into_another_store", "workspace_path_spelled_non_canonically", "priors_with_interrupted_copy_leftover", "dir_removed_between_checkouts", "priors_with_foreign_hardlinks", "sequences", "second_checkouts_audited", "relinks_checked", "files_link_type_checked", "cache_snapshots_compared",
+REQUIRED_COUNTERS = ["checkouts_of_a_part_over_the_whole", "checkouts_of_a_tree_extended_after_a_checkout", "relinks_with_one_wrong_link_among_many", "stores_with_tmp_dir_on_another_filesystem", "sequences_with_a_callers_progress_callback", "workspace_path_relative_to_cwd", "renamed_files_between_versions", "state_reused_after_close", "priors_with_dangling_symlink", "priors_linked_into_another_store", "workspace_path_spelled_non_canonically", "priors_with_interrupted_copy_leftover", "dir_removed_between_checkouts", "priors_with_foreign_hardlinks", "sequences", "second_checkouts_audited", "relinks_checked", "files_link_type_checked", "cache_snapshots_compared",
                      "link_records_checked", "pair/copy->hardlink", "pair/hardlink->symlink", "pair/symlink->copy", "pair/copy->symlink",
                      "pair/hardlink->copy", "pair/symlink->hardlink", "store/local", "store/base", "single_file_cases"]
 
@@ -288,13 +288,96 @@ def run_shard(ctx):
             if other_mount_tmp:
                 ctx.drop(other_mount_tmp)
 
+        def part_and_more(case=case, rng=rng):
+            """one tree object used several times: a part of it (filter) checked out over the whole, the tree extended after a checkout
+            and checked out again, and one wrongly linked file among many under a relinking checkout"""
+            from dvc_data.hashfile.hash_info import HashInfo
+            from dvc_data.hashfile.meta import Meta
+
+            from ..oracle import H
+
+            d = ctx.fresh("p")
+            cls = rng.choice(["local", "local", "base"])
+            configured = rng.choice(TYPES)
+            state = env.mk_state(d, os.path.join(d, "tmp")) if rng.random() < 0.5 else None
+            odb = env.odb_of_class(cls, os.path.join(d, "cache"), state=state, type=[configured])
+            many = rng.random() < 0.4
+            T = {("top.txt",): gen.small_content(rng) + b"t", ("sub", "a"): gen.small_content(rng) + b"a", ("sub", "deep", "b"): gen.small_content(rng) + b"b",
+                 ("other", "c"): gen.small_content(rng) + b"c"}
+            if many:
+                for i in range(rng.choice([70, 130])):
+                    T[("many", f"f{i:03d}")] = b"many %d %d" % (case, i)
+            tobj = colab.populate(odb, d, T, "tsrc")
+            ws = os.path.join(d, "ws", "out")
+            os.makedirs(os.path.dirname(ws))
+            tree = load(odb, tobj.hash_info)
+            res.evaluated()
+            res.count("part_and_more_sequences")
+            cfg = {"store": cls, "configured": configured, "state": state is not None, "many": many}
+
+            def same(when, want):
+                got = walk_files(ws)
+                if got != want:
+                    miss, extra = sorted(set(want) - set(got))[:2], sorted(set(got) - set(want))[:2]
+                    res.violation(f"not-converged/{when}/" + ("missing" if miss else "extra" if extra else "wrong-bytes"), f"after {when}: missing={miss} extra={extra}", case=case, detail=cfg)
+                    return False
+                return True
+
+            checkout(ws, fs, tree, odb, force=True, state=state)
+            if not same("first-checkout-of-the-whole", T):
+                return
+            if many:
+                # one file among many is linked the wrong way (replaced by a plain copy / by a link): a relinking checkout repairs it
+                victim = os.path.join(ws, "many", f"f{rng.randrange(len([k for k in T if k[0] == 'many'])):03d}")
+                data = T[("many", os.path.basename(victim))]
+                os.unlink(victim)
+                cp = odb.oid_to_path(H("md5", data))
+                if configured == "copy":
+                    os.link(cp, victim)
+                else:
+                    with open(victim, "wb") as f:
+                        f.write(data)
+                checkout(ws, fs, tree, odb, force=True, relink=True, state=state)
+                res.count("relinks_with_one_wrong_link_among_many")
+                st_ = os.lstat(victim)
+                import stat as _stat
+
+                ok_ = ((configured == "symlink" and _stat.S_ISLNK(st_.st_mode)) or (configured == "hardlink" and st_.st_ino == os.lstat(cp).st_ino)
+                       or (configured == "copy" and not _stat.S_ISLNK(st_.st_mode) and st_.st_ino != os.lstat(cp).st_ino))
+                if not ok_:
+                    res.violation(f"wrong-link-type/one-among-many/{configured}", f"{os.path.basename(victim)} keeps the wrong link type after a relinking checkout of {len(T)} files", case=case, detail=cfg)
+                same("relink-with-one-wrong-link", T)
+            # the tree is extended after it has been checked out, digested again and checked out again
+            extra_ = gen.small_content(rng) + b"added-later"
+            ep_ = os.path.join(d, "extra-src")
+            with open(ep_, "wb") as f:
+                f.write(extra_)
+            odb.add(ep_, fs, H("md5", extra_))
+            tree.add(("sub", "added-later"), Meta(size=len(extra_)), HashInfo("md5", H("md5", extra_)))
+            tree.digest()
+            odb.add(tree.path, tree.fs, tree.oid)
+            T2 = {**T, ("sub", "added-later"): extra_}
+            checkout(ws, fs, tree, odb, force=True, state=state)
+            res.count("checkouts_of_a_tree_extended_after_a_checkout")
+            if not same("checkout-of-the-extended-tree", T2):
+                return
+            # a part of the tree over a workspace that holds the whole: everything outside the part goes
+            part = tree.filter(("sub",))
+            checkout(ws, fs, part, odb, force=True, state=state)
+            res.count("checkouts_of_a_part_over_the_whole")
+            same("checkout-of-a-part-over-the-whole", {k: v for k, v in T2.items() if k[0] == "sub"})
+            if state is not None:
+                state.close()
+            env.reset_staging()
+            ctx.drop(d)
+
         def one_in_place(one=one):
             try:
                 one()
             finally:
                 os.chdir("/")
 
-        ctx.guard(case, one_in_place)
+        ctx.guard(case, part_and_more if case % 40 == 21 else one_in_place)
 
 
 def check_link_record(res, state, ws, fs, case, cfg, when):
